@@ -17,6 +17,24 @@
 #ifndef R0_T
 #define R0_T 1
 #endif
+// allocator configuration (C10 at rank 0): the traits of life::tracked_alloc, or std::pmr::polymorphic_allocator over
+// life::logging_resource instances (R0_PMR=1: no propagation trait, select_on_container_copy_construction returns the default
+// resource).  Default: a stateful allocator that propagates nowhere and compares by id.
+#ifndef R0_POCCA
+#define R0_POCCA 0
+#endif
+#ifndef R0_POCMA
+#define R0_POCMA 0
+#endif
+#ifndef R0_POCS
+#define R0_POCS 0
+#endif
+#ifndef R0_AE
+#define R0_AE 0
+#endif
+#ifndef R0_PMR
+#define R0_PMR 0
+#endif
 
 namespace life {
 // the properties' element order (C07): by payload.  Declared here because life_tracked_elem.hpp only has == and !=.
@@ -74,7 +92,20 @@ constexpr bool tracked = false;
 #endif
 using CE = std::conditional_t<tracked, int, short>;   // the "convertible element type"
 
-template<class T> using alloc_t = life::tracked_alloc<T, false, false, false, false>;
+#if R0_PMR
+template<class T> using alloc_t = std::pmr::polymorphic_allocator<T>;
+constexpr int NRES = 8;
+inline life::logging_resource* resources() { static life::logging_resource r[NRES]; return r; }
+template<class T> alloc_t<T> mk_alloc_of(int id) { return alloc_t<T>(&resources()[((id % NRES) + NRES) % NRES]); }
+template<class T> int alloc_id(std::pmr::polymorphic_allocator<T> const& a) {
+	for(int k = 0; k != NRES; ++k) { if(a.resource() == &resources()[k]) { return k; } }
+	return -1;
+}
+#else
+template<class T> using alloc_t = life::tracked_alloc<T, R0_POCCA != 0, R0_POCMA != 0, R0_POCS != 0, R0_AE != 0>;
+template<class T> alloc_t<T> mk_alloc_of(int id) { return alloc_t<T>(id); }
+template<class T> int alloc_id(alloc_t<T> const& a) { return a.id; }
+#endif
 using A    = alloc_t<E>;
 using Arr  = multi::array<E, 0, A>;
 using SArr = multi::static_array<E, 0, A>;
